@@ -95,6 +95,7 @@ def r3_progress(chk, repo):
     seen = set()
     stack = [(h, None, None, False, (h,))]
     bad = None
+    failed_in_empty = []
     while stack and bad is None:
         n, val, emp, reset, path = stack.pop()
         key = (n.id, val, emp, reset)
@@ -111,14 +112,25 @@ def r3_progress(chk, repo):
                 bad = (path, "the datagram is retried without establishing "
                        "that the flushed packet carried other datagrams")
             continue
+        if n.expr is not None and emp == "empty" and find(
+                "$f.set_exception($e)", n.expr):
+            failed_in_empty.append(n)
+        forks = [(val, emp)]
         if n.kind == "stmt" and isinstance(n.stmt, ast.Assign) and len(
                 n.stmt.targets) == 1:
             t = unparse(n.stmt.targets[0])
             if t == flag and isinstance(n.stmt.value, ast.Constant):
-                val = bool(n.stmt.value.value)
+                forks = [(bool(n.stmt.value.value), emp)]
+            elif t == flag and emptiness(n.stmt.value) is not None:
+                # flag = not dgrams: the flag now *is* the emptiness test
+                em = emptiness(n.stmt.value)
+                forks = [(em == "true", "empty"), (em != "true", "nonempty")]
+                if emp in ("empty", "nonempty"):
+                    forks = [f_ for f_ in forks if f_[1] == emp]
             elif t == lname:
                 reset = True
-        for m, lab in n.succ:
+        for val, emp in forks:
+          for m, lab in n.succ:
             if lab == "exc":
                 continue
             e2 = emp
@@ -130,6 +142,8 @@ def r3_progress(chk, repo):
                 em = emptiness(n.expr)
                 if em is not None and lab in ("true", "false"):
                     e2 = "empty" if lab == em else "nonempty"
+                    if emp in ("empty", "nonempty") and e2 != emp:
+                        continue
             stack.append((m, val, e2, reset, path + (m,)))
     chk.stats["paths"] += len(seen)
     chk.ob(rule, sym, "overflow retry cannot repeat with identical state",
@@ -144,7 +158,7 @@ def r3_progress(chk, repo):
     # the request that can never fit is failed
     tests = [n for n in cfg.reachable(h) if n.kind == "test"
              and emptiness(n.expr) is not None]
-    failed = False
+    failed = bool(failed_in_empty)
     for t in tests:
         st = t.stmt
         if isinstance(st, ast.If):
